@@ -248,11 +248,15 @@ def run(case, whole=False):
 METHODS = [b"GET", b"POST", b"PUT", b"HEAD", b"OPTIONS", b"DELETE", b"get", b"PoSt"]
 HOSTS = [b"origin.example", b"origin.example", b"origin.example", b"other.example:8080", b"origin.example:80"]
 PATHS = [b"/", b"/a", b"/a/b?x=1", b"/%41", b"/a;b", b"*"]
-CL_VALUES = [b"0", b"3", b"5", b"10", b"03", b"+3", b"3 ", b" 3", b"3, 3", b"3,4", b"-1", b"0x3", b"3.0", b"", b"abc", b"99999999999999999999", b"3\t"]
+CL_VALUES = [b"0", b"3", b"5", b"10", b"03", b"+3", b"3 ", b" 3", b"3, 3", b"3,4", b"-1", b"0x3", b"3.0", b"", b"abc", b"99999999999999999999", b"3\t",
+             b"\xd9\xa3", b"1\xd9\xa0", b"\xef\xbc\x93", b"\xe0\xa5\xa9", b"\xb3", b"\xc2\xb3", b"3\xc2\xa0", b"\xc2\xa03", b"\xe2\x80\x833",
+             b"3\xff", b"\xf0\x9d\x9f\x91", b"\x1c3", b"3\x85"]
 TE_VALUES = [b"chunked", b"Chunked", b"CHUNKED", b"gzip, chunked", b"gzip,chunked", b"gzip ,\tchunked", b"deflate, chunked",
              b"compress, chunked", b"identity", b"gzip", b"deflate", b"compress", b"chunked, gzip", b"chunked, chunked",
              b"xchunked", b"chunked ", b" chunked", b"\tchunked", b"x-gzip, chunked", b"gzip, gzip, chunked", b"",
-             b"chunked;q=1", b"chun\xc4\xb7ed", b"\xe2\x84\xaahunked", b"identity, chunked", b",chunked", b"chunked,"]
+             b"chunked;q=1", b"chun\xc4\xb7ed", b"\xe2\x84\xaahunked", b"identity, chunked", b",chunked", b"chunked,",
+             b"chunked\xc2\xa0", b"\xc2\xa0chunked", b"chun\xef\xbd\x8bed", b"gzip\xef\xbc\x8cchunked", b"gzip,\xe2\x80\x83chunked", b"chunked\x85",
+             b"\xef\xbb\xbfchunked", b"chunked\xe2\x80\x8b", b"\x1cchunked", b"CHUN\xe2\x84\xaaED"]
 NEUTRAL = [(b"Accept", b"*/*"), (b"X-A", b"1"), (b"x-a", b"2"), (b"Cookie", b"a=b; c=d"), (b"X-Empty", b""),
            (b"Connection", b"keep-alive"), (b"Connection", b"close"), (b"User-Agent", b"t/1.0 (x; y)"),
            (b"X-Obs", b"\xe9\xff"), (b"X-Tab", b"a\tb"), (b"Expect", b"100-continue"), (b"Content-Type", b"text/plain")]
@@ -269,6 +273,7 @@ def chunked_body(rng, body: bytes, quirks=True):
         size = b"%x" % n
         if quirks and rng.chance(0.2): size = size.upper()
         if quirks and rng.chance(0.1): size = b"0" * rng.randint(1, 3) + size
+        if quirks and rng.chance(0.04): size = unicodeify(rng, size)
         ext = rng.pick([b";a=b", b";x", b" ", b";a=\"q\"", b"\t"]) if quirks and rng.chance(0.15) else b""
         out += size + ext + b"\r\n" + body[i:i + n] + b"\r\n"
         i += n
@@ -296,6 +301,7 @@ def gen_headers_and_body(rng, is_request, version11=True):
         wire = b"" if is_request or rng.chance(0.5) else body
     elif kind == "cl":
         v = b"%d" % len(body) if rng.chance(0.8) else rng.pick(CL_VALUES)
+        if rng.chance(0.06): v = unicodeify(rng, b"%d" % len(body))
         lines.append(rng.pick([b"Content-Length", b"content-length", b"CONTENT-LENGTH"]) + b": " + v)
         wire = body
     elif kind == "te":
@@ -339,6 +345,7 @@ def gen_request(rng, mode):
     else:
         target = path
     sp = b" " if rng.chance(0.95) else rng.pick([b"  ", b"\t", b" \t"])
+    if rng.chance(0.02): v = unicodeify(rng, v)
     line = method + sp + target + b" " + v
     lines, wire = gen_headers_and_body(rng, True, v == b"HTTP/1.1")
     if rng.chance(0.93):
@@ -354,7 +361,10 @@ def gen_response(rng):
     status = rng.weighted([(60, 200), (6, 204), (6, 304), (8, 404), (4, 500), (3, 100), (2, 103), (2, 301), (1, 199), (1, 205)])
     v = rng.weighted([(88, b"HTTP/1.1"), (10, b"HTTP/1.0"), (2, b"HTTP/1.2")])
     reason = rng.pick([b"OK", b"", b"Not Found", b"a b  c", b"\xe9", b"a\tb"])
-    line = v + b" " + (b"%d" % status) + ((b" " + reason) if reason or rng.chance(0.5) else b"")
+    st = b"%d" % status
+    if rng.chance(0.03): st = unicodeify(rng, st)
+    if rng.chance(0.01): v = unicodeify(rng, v)
+    line = v + b" " + st + ((b" " + reason) if reason or rng.chance(0.5) else b"")
     lines, wire = gen_headers_and_body(rng, False, v == b"HTTP/1.1")
     eol = b"\r\n" if rng.chance(0.94) else b"\n"
     head = eol.join([line] + lines) + eol + eol
@@ -364,9 +374,33 @@ def gen_response(rng):
 
 MUT_BYTES = b"\r\n \t:,;\x000159aAzcChHkK-\x0b\x0c\x7f\x80\xff"
 
+# non-ASCII look-alikes: Unicode decimal digits (category Nd: str regex \d, int(), str.isdigit accept them), latin-1
+# superscripts, Unicode whitespace (str.strip()/\s), letters that case-fold or NFKC-normalise into ASCII
+def uni_digit(d: int, rng=None) -> bytes:
+    bases = [0x0660, 0x06F0, 0x0966, 0xFF10, 0x09E6, 0x0E50, 0x1D7CE]
+    base = rng.pick(bases) if rng else bases[0]
+    return chr(base + d).encode("utf-8")
+
+
+UNI_WS = [b"\xc2\xa0", b"\xe2\x80\x83", b"\xe2\x80\xa8", b"\xe3\x80\x80", b"\xc2\x85", b"\x1c", b"\x1f", b"\xa0", b"\x85"]
+UNI_MISC = [b"\xb2", b"\xb9", b"\xb3", b"\xe2\x85\xa0", b"\xe2\x91\xa0", b"\xef\xbd\x8b", b"\xe2\x84\xaa", b"\xc4\xb0", b"\xc5\xbf",
+            b"\xef\xbc\x8c", b"\xef\xbc\x9a", b"\xe2\x80\x8b", b"\xef\xbb\xbf", b"\xed\xa0\x80", b"\xc0\xb0", b"\xff", b"\x80"]
+
+
+def unicodeify(rng, b: bytes) -> bytes:
+    """one ASCII digit -> a Unicode decimal digit of the same value, or Unicode whitespace / look-alike inserted"""
+    pos = [i for i, c in enumerate(b) if 48 <= c <= 57]
+    r = rng.random()
+    if pos and r < 0.6:
+        i = rng.pick(pos)
+        return b[:i] + uni_digit(b[i] - 48, rng) + b[i + 1:]
+    i = rng.randint(0, len(b))
+    return b[:i] + rng.pick(UNI_WS if r < 0.85 else UNI_MISC) + b[i:]
+
 
 def mutate(rng, b: bytes) -> bytes:
     if not b: return b
+    if rng.chance(0.2): return unicodeify(rng, b)
     i = rng.randrange(len(b))
     r = rng.random()
     if r < 0.35: return b[:i] + bytes([rng.pick(MUT_BYTES)]) + b[i + 1:]
